@@ -483,6 +483,15 @@ func (lc *leaderController) applyAllEntriesIntoDBLoop(r wal.Reader) error {
 		}
 		for _, writeRequest := range logEntryValue.GetRequests().Writes {
 			if _, err = lc.db.ProcessWrite(writeRequest, entry.Offset, entry.Timestamp, WrapperUpdateOperationCallback); err != nil {
+				if kv.IsInvalidRequestError(err) {
+					// The request was refused when it was first applied: it has no effect
+					lc.log.Warn(
+						"Skipping invalid request found in the log",
+						slog.Int64("offset", entry.Offset),
+						slog.Any("error", err),
+					)
+					continue
+				}
 				return err
 			}
 		}
